@@ -464,7 +464,7 @@ func runProto(prop, tier string, seed int64) int {
 		return 2
 	}
 	ps := reg[prop]
-	evPath := filepath.Join(verifDir, "evidence", prop+".json")
+	evPath := filepath.Join(outDir, "evidence", prop+".json")
 	scratch, _ := os.MkdirTemp("", "gosmt-*")
 	defer os.RemoveAll(scratch)
 	l, err := loadProgram(ps.Packages, scratch)
@@ -540,7 +540,7 @@ func runProto(prop, tier string, seed int64) int {
 				fmt.Printf("    UNCONFIRMED schedule for %s (no native twin)\n", name)
 				continue
 			}
-			dir := filepath.Join(verifDir, "replays", prop, fmt.Sprintf("%s_N%d_%s", rep.Side, rep.N, name))
+			dir := filepath.Join(outDir, "replays", prop, fmt.Sprintf("%s_N%d_%s", rep.Side, rep.N, name))
 			os.RemoveAll(dir)
 			spec := HarnessSpec{Pkg: "io", Func: twin}
 			v.Label = "api-lost-cancel"
